@@ -488,9 +488,9 @@ func init() {
 		Families: func(c *mon.Config) []mon.Family {
 			reps := c.Pick(80, 12000)
 			return []mon.Family{
-				{Name: "enumerated-faults", N: len(plans) * reps, Run: func(w *mon.W, idx int) { c18History(w, plans[idx%len(plans)], idx) }},
-				{Name: "large-sections", N: c.Pick(10000, 1500000), Run: c18Large},
-				{Name: "at-to-writer", N: c.Pick(6000, 600000), Run: c18AtToWriter},
+				{Name: "enumerated-faults", Env: 4, N: len(plans) * reps, Run: func(w *mon.W, idx int) { c18History(w, plans[idx%len(plans)], idx) }},
+				{Name: "large-sections", Env: 6, N: c.Pick(10000, 1500000), Run: c18Large},
+				{Name: "at-to-writer", Env: 4, N: c.Pick(6000, 600000), Run: c18AtToWriter},
 				{Name: "near-maxint64", N: c.Pick(3000, 300000), Run: c18NearMax},
 			}
 		},
